@@ -10,11 +10,12 @@ RULE = ("rule-based state machine over the real module globals (guard, error-sup
         "(restore_guard), toggle ignore_errors at top level, run a generated tree of nested guarded(cond)(fn) calls / "
         "lazy if_then_else branches whose bodies do traced work, recurse, and raise a sentinel exception (an Exception subclass, a BaseException subclass, "
         "KeyboardInterrupt, SystemExit, GeneratorExit or StopIteration) at a chosen statement (caught at a chosen ancestor level), walk an if/elif/else or while block context through "
-        "enter/elif/else/exit, and attempt invalid entries (constant 0, non-boolean value, wrong type) that must raise "
+        "enter/elif/else/exit - also ill-formed blocks whose closing statement raises while merging (variable set in one branch "
+        "only, unmergeable value) -, leave an _if/_while block open when a region ends, and attempt invalid entries (constant 0, non-boolean value, wrong type) that must raise "
         "and change nothing. Invariant after every step: guard is None iff no secret condition is active; guard.value == "
         "AND of the active conditions and equals its wire expression on the recorded witness; error suppression == base "
         "flag OR some active condition is 0; LinComb.ONE is the guard inside and the safe constant outside; the constant "
-        "k means k*guard inside and k outside; after a call tree or block walk the three globals are the identical "
+        "k means k*guard inside and k outside; if_guard(fn) runs fn exactly when that conjunction is true; after a call tree or block walk the three globals are the identical "
         "objects as before. Non-trivial = history with an exceptional exit at depth >= 2 or a false guard under a true "
         "one; distinct by history digest.")
 
@@ -151,6 +152,13 @@ def make_machine(stats):
                         x = rt.PrivVal(3) * rt.PrivVal(4)
                     else:
                         x = rt.PrivVal(3) < rt.PrivVal(4)
+                    # if_guard(fn) (igprint is if_guard(print)) runs fn exactly when the effective guard is true or absent
+                    ran = []
+                    rt.if_guard(lambda: ran.append(1))()
+                    want_run = all(machine.active() + conds)
+                    if bool(ran) != want_run:
+                        machine.fail("if_guard ran its function: %r, the conjunction of the enclosing conditions %r is %r" % (
+                            bool(ran), machine.active() + conds, want_run))
                     machine.check_inside(conds)
                     return
                 _, v, form, children, catches = node
